@@ -47,6 +47,11 @@ CHECKS = {
   note="Only one hash-iteration site is modelled; other sites are covered by the cross-process oracle only (it found and a fix: commit repaired the missing-field diagnostic order).",
   technique="Lean 4 proof (sorting + permutation invariance) + manifest correspondence + cross-process byte-comparison oracle",
   ref="C12"),
+ "C13": dict(
+  text="The model's keyword tables are REGENERATED from /repo on every run (RUST_KEYWORDS, and the real lexer's verdict on which Rust keywords are legal Incan identifiers), then Lean 4 re-checks: the table contains every Rust 2021 strict/reserved keyword and nothing else (`table_complete`, `table_sound`, against an independently transcribed reference list); every Rust keyword that is a legal Incan name can be written as a raw identifier, except `Self` (`legal_keywords_rawable`, witness `self_type_name_unemittable`); `emitted_identifier_valid_partial` — for every name and every binding position the identifier the emitter builds is one rustc accepts; emission is injective, so a consistent renaming preserves the binding structure (`emit_injective`, `rename_preserves_binding`); non-keywords are left untouched. That an accepted identifier also leaves behaviour unchanged is decided by compiling and running one program per (position, name) and comparing with the plain-named program.",
+  note="Partial at the token level: clashes with generated temporaries (__parts/__args) and relied-on type names (String, Vec, …) and the name `Self` are recorded findings. 11 unescaped positions (function, method, field, const, enum, variant, trait, comprehension variable, …) were repaired by a fix: commit.",
+  technique="Lean 4 proof over tables regenerated from the source (translator) + finite-table decide + compiled-program correspondence + renaming oracle",
+  ref="C13"),
  "C14": dict(
   text="Lean 4: models of both resolvers (command-line `collect_modules` and the language server's `resolve_import_path`), the CLI work list and the import visibility check. Proved: `resolvers_agree_partial` (the two resolve an import to the same file when it names a module by all its segments, is written in the entry directory, and the module is not a `mod.incn` directory module), with kernel-checked witnesses that each hypothesis is needed (`resolvers_do_not_agree`) — each witness is a recorded finding replayed on the real code; `private_rejected` (importing a non-exported name is rejected for both `from m import x` and `import m::x`); the work list parses every file at most once and its measure decreases (cycles cannot hang). Full agreement, diagnostics for missing modules/cycles and visibility of qualified access `m.x` do not hold in the code: recorded as known findings.",
   note="Six known findings (three resolver disagreements, qualified access, silent missing module, silent cycle). Assumes nothing relevant exists above the modelled tree for `crate::` lookups. Tie: both real resolvers on 13 layouts × 17 import spellings + nested + random layouts; real collect_modules+check_with_imports on 13 project scenarios.",
